@@ -98,6 +98,10 @@ func handleProofMsg(ctx sdk.Ctx, k keeper.Keeper, proof types.MsgProof) sdk.Resu
 }
 
 func processSelf(ctx sdk.Ctx, signer sdk.Address, header types.SessionHeader, evidenceType types.EvidenceType, tokens sdk.BigInt) {
+	// a simulated transaction (whose signature nobody verified) must not touch the node's evidence
+	if sdk.IsSimulateCtx(ctx) {
+		return
+	}
 	node, ok := types.GlobalPocketNodes[signer.String()]
 	if !ok {
 		return
